@@ -987,6 +987,13 @@ func (m *Model) reset() {
 	m.Created_, m.Removed_ = 0, 0
 	for i := range m.Reg {
 		m.Reg[i] = false
+		// handles restart after a Reset: a filter object with a fixed pre-Reset target is
+		// meaningless afterwards and is rebuilt on next use
+		for _, r := range m.Filters[i].Rels {
+			if r.T != ZeroTarget {
+				m.Created[i] = false
+			}
+		}
 	}
 	for i := range m.ObsReg {
 		m.ObsReg[i] = false
